@@ -469,7 +469,11 @@ func (a *analysis) rankMsg(b, p int) string {
 		return -1
 	}
 	pp, pb := pos(fp, p), pos(fb, b)
-	basePrio := func(id int) int {
+	var basePrio func(id int) int
+	basePrio = func(id int) int {
+		if q := a.sc.Bars[id].After; q >= 0 && a.queuedBeforeFlush(id, q) {
+			return basePrio(q) // inherited along the chain
+		}
 		if pr := a.sc.Bars[id].Prio; pr != nil {
 			return *pr
 		}
@@ -570,7 +574,7 @@ func (a *analysis) oracleC06() verdict {
 			case hpRenderBegin:
 				cyc++
 			case hpFlushBar:
-				if h.A == 1 && h.Bar >= 0 && h.Bar < n && !sc.Bars[h.Bar].NoPop && !a.hasSuccessor(h.Bar) {
+				if h.A == 1 && h.Bar >= 0 && h.Bar < n && a.leavingKind(h.Bar) == "popped" {
 					if _, ok := popSeq[h.Bar]; !ok {
 						popSeq[h.Bar] = seq
 						popCycle[h.Bar] = cyc
@@ -617,8 +621,13 @@ func (a *analysis) oracleC06() verdict {
 			if pc, popped := popCycle[bi]; popped && c > pc {
 				cands = []int{math.MinInt32 + popSeq[bi]}
 				// a user update after the pop could move it: include applied/ambiguous updates invoked after
-			} else if sc.Bars[bi].After >= 0 {
+			} else if p := sc.Bars[bi].After; p >= 0 {
 				cands = nil // inherits at swap time: any value
+				if sc.Pop && !sc.Bars[p].NoPop && !a.queuedBeforeFlush(bi, p) {
+					// queued after pop mode had moved its predecessor away: nothing
+					// to inherit, the bar comes with its own (creation order) priority
+					cands = []int{base[bi]}
+				}
 			} else {
 				var applied []prioUpd
 				for _, u := range upd[bi] {
@@ -1044,34 +1053,48 @@ func (a *analysis) oracleC15() verdict {
 			return a.fv("running-after-error", "bar %d still running after the container shut down on a render error", bi)
 		}
 	}
-	if sc.Notifier {
-		if len(rr.notif) != 1 {
-			return a.fv(fmt.Sprintf("notifier:%d:%s", len(rr.notif), site), "after a render error the shutdown notifier delivered %d values", len(rr.notif))
+	if v := a.notifierAfterError(site); v != nil {
+		return *v
+	}
+	return held(true)
+}
+
+// notifierAfterError: after a render error the notifier still delivers exactly
+// one value listing the bars still in the container: only the failed bar is dropped.
+func (a *analysis) notifierAfterError(site string) *verdict {
+	rr, sc := a.rr, a.sc
+	if !sc.Notifier {
+		return nil
+	}
+	if len(rr.notif) != 1 {
+		v := a.fv(fmt.Sprintf("notifier:%d:%s", len(rr.notif), site), "after a render error the shutdown notifier delivered %d values", len(rr.notif))
+		return &v
+	}
+	seen := map[int]bool{}
+	for _, b := range rr.notif[0] {
+		if b < 0 || seen[b] {
+			v := a.fv("notifier-dup:"+site, "notifier list after a render error has unknown or duplicate bars: %v", rr.notif[0])
+			return &v
 		}
-		seen := map[int]bool{}
-		for _, b := range rr.notif[0] {
-			if b < 0 || seen[b] {
-				return a.fv("notifier-dup:"+site, "notifier list after a render error has unknown or duplicate bars: %v", rr.notif[0])
+		seen[b] = true
+	}
+	// bars the last good frame shows running are still in the container
+	if n := len(a.frames); n > 0 && site != "output" {
+		lf := a.frames[n-1]
+		for _, g := range lf.Groups {
+			if g.ID < 0 || g.ID >= len(sc.Bars) || g.C || g.A {
+				continue
 			}
-			seen[b] = true
-		}
-		// bars the last good frame shows running are still in the container (only the failed bar is dropped)
-		if n := len(a.frames); n > 0 && site != "output" {
-			lf := a.frames[n-1]
-			for _, g := range lf.Groups {
-				if g.ID < 0 || g.ID >= len(sc.Bars) || g.C || g.A {
-					continue
-				}
-				if sc.Bars[g.ID].FailAt > 0 || sc.Bars[g.ID].ExtFailAt > 0 {
-					continue
-				}
-				if !seen[g.ID] {
-					return a.fv("notifier-missing:"+site, "bar %d was running in the last frame before the render error and did not fail, but the shutdown notifier's list %v lacks it", g.ID, rr.notif[0])
-				}
+			if sc.Bars[g.ID].FailAt > 0 || sc.Bars[g.ID].ExtFailAt > 0 {
+				continue
+			}
+			if !seen[g.ID] {
+				v := a.fv("notifier-missing:"+site, "bar %d was running in the last frame before the render error and did not fail, but the shutdown notifier's list %v lacks it", g.ID, rr.notif[0])
+				return &v
 			}
 		}
 	}
-	return held(true)
+	return nil
 }
 
 func (a *analysis) faultHappened() bool {
